@@ -358,6 +358,8 @@ def c16_scope(tier):
     P.append(("call-in-body", 'func sc(Signal a, int k) { return a * k + k; }\n' + X + "for i in 0..3 {\n  Entity l = place(\"small-lamp\", i * 2, 0);\n  l.enable = sc(x, i) > 10;\n}\n"))
     P.append(("zero-iter", X + "for i in 3..3 {\n  Entity l = place(\"small-lamp\", i, 0);\n}\nSignal r = x + 1;\n"))
     P.append(("param-shadows-iterator", 'func scaled(int i) { return i * 2; }\nfor i in 1..4 {\n  Entity l = place("small-lamp", scaled(5) + i, 0);\n}\n'))
+    # the iterator shadows a global int only inside the loop
+    P.append(("iterator-shadows-global", "int i = 5;\n" + X + "for i in 0..2 {\n  Entity l = place(\"small-lamp\", i * 2, 0);\n  l.enable = x > i * 3;\n}\nSignal r = x + i;\n"))
     return P
 
 
